@@ -114,6 +114,13 @@ type deferred struct {
 	tail  *deferred
 }
 
+// maxCallDepth bounds the nesting of interpreted calls (each costs ~2 KB of host stack); the
+// deepest legitimate nesting of the target - 10000 value-stack entries of the expression
+// language - stays far below it.
+const maxCallDepth = 60000
+
+var maxDepthSeen int // diagnostic (SYMGO_DEBUG_SCHED)
+
 type frame struct {
 	i                *interpreter
 	caller           *frame
@@ -126,6 +133,7 @@ type frame struct {
 	panicking        bool
 	panic            any
 	phitemps         []value // temporaries for parallel phi assignment
+	depth            int     // nesting depth of interpreted calls on this goroutine
 }
 
 func (fr *frame) get(key ssa.Value) value {
@@ -559,6 +567,19 @@ func callSSA(i *interpreter, caller *frame, callpos token.Pos, fn *ssa.Function,
 		i:      i,
 		caller: caller, // for panic/recover
 		fn:     fn,
+	}
+	if caller != nil {
+		fr.depth = caller.depth + 1
+		if fr.depth > maxDepthSeen {
+			maxDepthSeen = fr.depth
+		}
+		if fr.depth > maxCallDepth && i.path != nil && i.job != nil && !i.sched.aborting {
+			// the target recurses without any bound of its own: natively the Go runtime ends the
+			// process with "fatal error: stack overflow" (not recoverable)
+			i.findingHere("panic", "stack-overflow", fmt.Sprintf("unbounded recursion: more than %d nested calls (natively: fatal error: stack overflow, the process dies) in %s", maxCallDepth, fn))
+			i.abortReason = "end"
+			panic(pathAbort{"end"})
+		}
 	}
 	if ext := i.externalFor(fn); ext != nil {
 		if i.mode&EnableTracing != 0 {
